@@ -175,6 +175,7 @@ CATALOGUE = {
     "C07": [
         H("c07::proofs::c07_lr_reuse_k3", Q, lr=True, what="consumer takes the only queued value, producer's send reuses that cell: happens-before under declared orderings, drops", bounds="Lal-Reps K=3, 2 threads, <=1 spurious CAS failure"),
         H("c07::proofs::c07_lr_p2_k3", Q, lr=True, timeout=2400, what="two producers on two threads (the documented multi-producer mode), one send each, channel dropped afterwards: no two threads touch a cell without happens-before, every value dropped exactly once", bounds="Lal-Reps K=3, 2 threads, <=1 spurious CAS failure"),
+        H("c07::proofs::c07_lr_p2_after_recv_k3", Q, lr=True, timeout=2400, what="the same two producers on a channel that has already carried a value (sequential send + recv first: a slot has been recycled), from Channel::new() - no state-construction hook, runs in the fallback build too", bounds="Lal-Reps K=3, 2 threads, <=1 spurious CAS failure; sequential prefix of 1 send + 1 recv"),
         H("c07::proofs::c07_lr_p1x2_c1_k3", T, lr=True, timeout=3600, what="1 producer (2 sends), 1 consumer (2 recvs): cell races, exactly-once drop, FIFO clauses", bounds="Lal-Reps K=3, 2 threads, <=1 spurious CAS failure"),
         H("c07::proofs::c07_lr_p2_c1_k3", T, lr=True, timeout=3600, what="2 producers (1 send each), 1 consumer (2 recvs): cell races, exactly-once drop, FIFO clauses", bounds="Lal-Reps K=3, 3 threads, <=1 spurious CAS failure"),
     ],
